@@ -359,7 +359,9 @@ func coalesceIntervals(intervals []ast.Interval) []ast.Interval {
 
 		// Check if current overlaps or is adjacent to last
 		// Adjacent means end of last + 1 nanosecond = start of current
-		if last.End.Timestamp >= curr.Start.Timestamp-1 {
+		// (curr.Start <= last.End covers the overlap; the adjacency test then never sees curr.Start at
+		// math.MinInt64, where curr.Start-1 would wrap around.)
+		if curr.Start.Timestamp <= last.End.Timestamp || last.End.Timestamp == curr.Start.Timestamp-1 {
 			// Merge: extend the end if needed
 			if curr.End.Timestamp > last.End.Timestamp {
 				last.End = curr.End
